@@ -354,7 +354,7 @@ pub fn run(cx: &mut Cx) {
     tera.autoescape_on(Vec::<&'static str>::new());
     tera.add_raw_template("p", "{{ v }}").unwrap();
     let eng = Eng { tera };
-    let total = cx.total(3000, 300_000);
+    let total = cx.total(20_000, 1_000_000);
     macro_rules! rt {
         ($cx:expr, $rng:expr, $($t:ty),* $(,)?) => {$( roundtrip::<$t>($cx, &eng, $rng, stringify!($t)); )*};
     }
